@@ -504,7 +504,13 @@ impl Subcommand {
       BTreeMap::new()
     } else {
       let mut aliases = BTreeMap::<&str, Vec<&str>>::new();
-      for alias in module.aliases.values().filter(|alias| !alias.is_private()) {
+      for alias in module.aliases.values().filter(|alias| {
+        !alias.is_private()
+          && module
+            .recipes
+            .get(alias.target.name.lexeme())
+            .is_some_and(|recipe| Rc::ptr_eq(recipe, &alias.target))
+      }) {
         aliases
           .entry(alias.target.name.lexeme())
           .or_default()
@@ -710,7 +716,7 @@ impl Subcommand {
     let name = path.path.last().unwrap();
 
     if let Some(alias) = module.get_alias(name) {
-      let recipe = module.get_recipe(alias.target.name.lexeme()).unwrap();
+      let recipe = &alias.target;
       println!("{alias}");
       println!("{}", recipe.color_display(config.color.stdout()));
       Ok(())
